@@ -77,7 +77,12 @@ func genC18(t *rapid.T) c18Case {
 		nf := rapid.IntRange(1, 7).Draw(t, "nfields")
 		for j := 0; j < nf; j++ {
 			fieldN++
-			f := psField{Name: fmt.Sprintf("F%d", fieldN), Type: rapid.SampledFrom(psTypes).Draw(t, "ftype"), Tag: rapid.SampledFrom(psTags).Draw(t, "tag")}
+			fname := fmt.Sprintf("F%d", fieldN)
+			// a name that extends the previous field's name (ID/IDs, Name/Namespace)
+			if j > 0 && rapid.IntRange(0, 5).Draw(t, "extendname") == 0 {
+				fname = o.Fields[j-1].Name + rapid.SampledFrom([]string{"s", "x", "0", "_"}).Draw(t, "suffix")
+			}
+			f := psField{Name: fname, Type: rapid.SampledFrom(psTypes).Draw(t, "ftype"), Tag: rapid.SampledFrom(psTags).Draw(t, "tag")}
 			if rapid.IntRange(0, 2).Draw(t, "doc") == 0 {
 				f.Doc = []string{rapid.SampledFrom([]string{"the count", "see other.Thing", "quoted \"x\"", "uses `backquote`", "100% sure @you"}).Draw(t, "docline")}
 			}
